@@ -1,4 +1,5 @@
 import Gomjml.Core.LayoutSpec
+import Gomjml.Core.LayoutStd
 /-! # C02 — output is well-formed HTML for standard (non-Outlook) clients (property theorems only)
 
 `Layout.render` is the control-flow-faithful skeleton model of body / section / wrapper / column / group / hero / raw
@@ -18,7 +19,13 @@ example : Tame [.section ⟨false, false, false, false, false, false, [.col ⟨f
                 .section ⟨true, true, false, false, false, false, [.col ⟨false, [.text]⟩]⟩, .hero [.text]] false := by
   simp [Tame, Wrapper.tame, secsOf, Section.emit, emitToks, secLeave, nextConsumes]
 
-/-- **C02 for every body whose wrappers are tame**: any sequence of sections (full-width, background image, chaining or not),
+/-- **C02, the full statement: for EVERY document of the layout grammar** — any sequence of sections, wrappers of any
+    configuration (full-width and background-image sections inside them, delegated backgrounds, blank raws), heroes and raw
+    content: what standard clients see is strictly nested, conditional comments are delimited and never nested, no VML outside an
+    Outlook conditional.  No side condition. -/
+theorem C02_full (bs : List Block) : StdWF ((render bs).map Tok.toG) := (std_spec_all bs).1
+
+/-- **C02 for every body whose wrappers are tame** (the older, weaker form, kept because C03 shares its hypothesis): any sequence of sections (full-width, background image, chaining or not),
     heroes and raw content — the classes `std:mismatch` and `nested-cond` recorded earlier are repaired in body.go -/
 theorem C02_all_bodies (bs : List Block) (hw : WrappersTame bs) : StdWF ((render bs).map Tok.toG) :=
   (wf_spec _ (C02_C03_all bs hw)).1
